@@ -735,6 +735,91 @@ def x10_fields(text, keep, log):
     return text[:b + 1] + res + text[e:]
 
 
+_RECV = r"((?:&\*\*)?[a-z_][a-z0-9_]*(?:\[[^\[\]]+\])?)"
+
+
+def x7s_string_shims(text, log):
+    """X7s: the std string calls of the category grammars, by method name and by the KIND of the
+    pattern argument (closure `|..|` or char literal `'c'`): `e.m(arg)` -> `vx_m(e, arg)`; every
+    shim's body is the original call (prelude/catshim.rs).  `.len()` becomes `.vx_len()`, a trait
+    method resolved by rustc on the receiver's type (str: UTF-8 length, Vec: number of elements).
+    X13: every closure handed to one of these shims (and to the split model's `all`) gets the
+    contract `result == <its own body>` (the body text is repeated, not interpreted)."""
+    def sub(pattern, repl, tag):
+        nonlocal text
+        def f(m):
+            log.add("X7s:" + tag)
+            return repl(m)
+        text = re.sub(pattern, f, text)
+    sub(_RECV + r"\s*\.chars\(\)\s*\.any\(\s*(?=\|)", lambda m: "vx_chars_any(%s, " % m.group(1), "vx_chars_any")
+    sub(_RECV + r"\s*\.chars\(\)\s*\.all\(\s*(?=\|)", lambda m: "vx_chars_all(%s, " % m.group(1), "vx_chars_all")
+    sub(_RECV + r"\s*\.starts_with\(\s*(?=\|)", lambda m: "vx_starts_with_pred(%s, " % m.group(1), "vx_starts_with_pred")
+    sub(_RECV + r"\s*\.contains\(\s*(?=\|)", lambda m: "vx_contains_pred(%s, " % m.group(1), "vx_contains_pred")
+    sub(_RECV + r"\s*\.starts_with\(\s*(?=')", lambda m: "vx_starts_with_char(%s, " % m.group(1), "vx_starts_with_char")
+    sub(_RECV + r"\s*\.ends_with\(\s*(?=')", lambda m: "vx_ends_with_char(%s, " % m.group(1), "vx_ends_with_char")
+    sub(_RECV + r"\s*\.contains\(\s*(?=')", lambda m: "vx_contains_char(%s, " % m.group(1), "vx_contains_char")
+    sub(_RECV + r"\s*\.strip_prefix\(\s*(?=')", lambda m: "vx_strip_prefix_char(%s, " % m.group(1), "vx_strip_prefix_char")
+    sub(_RECV + r"\s*\.rsplitn\(\s*2\s*,\s*('(?:\\.|[^'\\])')\s*\)\s*\.collect\(\)", lambda m: "vx_rsplitn2_char(%s, %s)" % (m.group(1), m.group(2)), "vx_rsplitn2_char")
+    sub(_RECV + r"\s*\.splitn\(\s*2\s*,\s*('(?:\\.|[^'\\])')\s*\)\s*\.collect\(\)", lambda m: "vx_splitn2_char(%s, %s)" % (m.group(1), m.group(2)), "vx_splitn2_char")
+    sub(_RECV + r"\s*\.rsplit_once\(\s*(?=')", lambda m: "vx_rsplit_once_char(%s, " % m.group(1), "vx_rsplit_once_char")
+    sub(_RECV + r"\s*\.split_once\(\s*(?=')", lambda m: "vx_split_once_char(%s, " % m.group(1), "vx_split_once_char")
+    sub(_RECV + r"\s*\.split\(\s*(?=')", lambda m: "vx_split_char(%s, " % m.group(1), "vx_split_char")
+    sub(_RECV + r"\s*\.parse::<(i16|i32|u16)>\(\)\s*\.is_ok\(\)", lambda m: "vx_parse_ok_%s(%s)" % (m.group(2), m.group(1)), "vx_parse_ok")
+    sub(r"&([a-z_][a-z0-9_]*)\[([a-z0-9_]+)\.\.([a-z0-9_]+)\]", lambda m: "vx_str_range(%s, %s, %s)" % (m.group(1), m.group(2), m.group(3)), "vx_str_range")
+    sub(r"\bUuid::parse_str\(((?:[^()]|\([^()]*\))*)\)\s*\.is_ok\(\)", lambda m: "vx_uuid_parse_ok(%s)" % m.group(1), "vx_uuid_parse_ok")
+    sub(r"\b([a-z_][a-z0-9_]*)\.reverse\(\)", lambda m: "vx_vec_reverse(&mut %s)" % m.group(1), "vx_vec_reverse")
+    sub(r"\.len\(\)", lambda m: ".vx_len()", "vx_len")
+    return x13_closure_contracts(text, log)
+
+
+def x13_closure_contracts(text, log):
+    """X13: a closure that is the LAST argument of a call, `f(.., |p| BODY)`, becomes
+    `f(.., |p| -> (vx_b: bool) ensures vx_b == (BODY) { BODY })`: its contract is its own body."""
+    out, i = [], 0
+    masked = mask_source(text)
+    while True:
+        m = re.compile(r"[(,]\s*\|([^|]*)\|\s*").search(masked, i)
+        if not m:
+            break
+        # the body runs to the parenthesis that closes the call
+        j, depth = m.end(), 0
+        while j < len(masked):
+            ch = masked[j]
+            if ch in "([{":
+                depth += 1
+            elif ch in ")]}":
+                if depth == 0:
+                    break
+                depth -= 1
+            elif ch == "," and depth == 0:
+                break
+            j += 1
+        if j >= len(masked) or masked[j] != ")" or "->" in masked[m.end():j][:4]:
+            out.append(text[i:m.end()])
+            i = m.end()
+            continue
+        body = text[m.end():j].rstrip()
+        tail = text[m.end() + len(body):j]
+        # the copy in the contract: comments removed, on one line (the line count of the function is kept)
+        mb = masked[m.end():m.end() + len(body)]
+        one, k = [], 0
+        while k < len(body):
+            if mb[k] == " " and (body.startswith("//", k) or body.startswith("/*", k)):
+                e = k
+                while e < len(body) and mb[e] == " " and body[e] != "\n":
+                    e += 1
+                k = e
+                continue
+            one.append(body[k])
+            k += 1
+        one = re.sub(r"\s+", " ", "".join(one)).strip().replace(".vx_len()", ".vx_len_spec()")
+        log.add("X13:closure-contract")
+        out.append(text[i:m.start()] + text[m.start():m.end()].rstrip() + " -> (vx_b: bool) ensures vx_b == (%s) { %s }" % (one, body) + tail)
+        i = j
+    out.append(text[i:])
+    return "".join(out)
+
+
 OPTS = {
     "x3c": x3c_container,
     "x3v": x3v_by_value_stream,
@@ -753,6 +838,7 @@ OPTS = {
     "x4": x4_formatter,
     "x5": x5_ref_patterns,
     "x7": x7_shims,
+    "x7s": x7s_string_shims,
 }
 
 
